@@ -119,6 +119,11 @@ impl Monitor for C20 {
         let mut realisations: Vec<(String, ANode, String)> = Vec::new();
         {
             let mut x = Xot::new();
+            // the parser's merging of character data and CDATA does not depend on the consolidation switch
+            if rng.chance(1, 4) {
+                x.set_text_consolidation(false);
+                ctx.count("parsed_with_text_consolidation_off");
+            }
             match guard(|| x.parse(&r.text)) {
                 Ok(Ok(d)) => match (snap_guarded(&x, d), ser(&x, d)) {
                     (Ok(t), Ok(Ok(s))) => realisations.push(("parse".into(), t, s)),
